@@ -320,6 +320,49 @@ fn tokens_invariant(chars: &[char], text: &'static str, twice: bool) {
     core::mem::forget(tok1_owned);
 }
 
+/// The same dictionary state, reassembled from its fields (including the retained mapper).
+#[cfg(kani)]
+pub fn rebuild(d: &Dictionary, s: &Spec) -> Dictionary {
+    let sys = clone_lex(d.verif_system_lexicon(), &s.sys, LexType::System);
+    let user = match d.verif_user_lexicon() {
+        Some(u) => Some(clone_lex(u, &s.user.unwrap(), LexType::User)),
+        None => None,
+    };
+    let mc = matrix_of(d.verif_connector());
+    let mut data = Vec::with_capacity(s.nr * s.nl);
+    for l in 0..s.nl {
+        for r in 0..s.nr {
+            data.push(mc.cost(r as u16, l as u16) as i16);
+        }
+    }
+    let es = d.verif_unk_handler().verif_entries();
+    let mut entries = Vec::with_capacity(es.len());
+    for (k, e) in es.iter().enumerate() {
+        entries.push(UnkEntry { cate_id: e.cate_id, left_id: e.left_id, right_id: e.right_id, word_cost: e.word_cost, feature: feature_of('k', k) });
+    }
+    let os = d.verif_unk_handler().verif_offsets();
+    let mut offsets = Vec::with_capacity(os.len());
+    for &o in os.iter() {
+        offsets.push(o);
+    }
+    let mapper = match d.verif_mapper() {
+        Some(m) => {
+            let mut l = Vec::with_capacity(s.nl);
+            let mut r = Vec::with_capacity(s.nr);
+            for i in 0..s.nl {
+                l.push(m.left(i as u16));
+            }
+            for i in 0..s.nr {
+                r.push(m.right(i as u16));
+            }
+            Some(ConnIdMapper::new(l, r))
+        }
+        None => None,
+    };
+    Dictionary::verif_from_parts(sys, user, ConnectorWrapper::Matrix(MatrixConnector::new(data, s.nr, s.nl)), mapper,
+        char_prop_of(&s.cats), UnkHandler::verif_from_parts(offsets, entries))
+}
+
 /// Rebuilds a dictionary with the same (symbolic) values as `d` (Dictionary is not Clone).
 #[cfg(kani)]
 pub fn clone_dict(d: &Dictionary, s: &Spec) -> Dictionary {
@@ -508,4 +551,79 @@ fn c06_dual_connector_mapping() {
     }
     kani::cover!(rmap_c[1] == 1 && rmap_c[2] == 0);
     core::mem::forget(conn);
+}
+
+//@ c06_two_mappings_compose {"desc":"after two successive mappings every entry carries the composed ids, the connector answers cost(m2(m1 r), m2(m1 l)) = cost(r,l), and the retained mapper is the composition - the mechanism by which a user lexicon loaded later (written with original ids) is translated","bounds":"dictionary S6C (4x4 matrix, system {a,ab}, user {b}, 3 unknown entries); mappings [2,3,1]/[3,1,2] then [1,3,2]/[2,1,3]","symbolic":"all params, matrix cells","functions":["Dictionary::map_connection_ids_from_iter","Dictionary::mapper","ConnIdMapper::left","ConnIdMapper::right"],"unwind":10,"fs":2048,"timeout":1800,"mem_gb":16,"stubs":["alloc::fmt::format"]}
+#[cfg(kani)]
+#[kani::proof]
+#[kani::stub(alloc::fmt::format, stub_format)]
+fn c06_two_mappings_compose() {
+    let d = dict_of(&S6C);
+    let mut before = [WordParam::default(); 8];
+    let nb = snapshot_params(&d, &mut before);
+    let mut cost_before = [[0i32; 4]; 4];
+    for r in 0..4 {
+        for l in 0..4 {
+            cost_before[r][l] = d.verif_conn_cost(r as u16, l as u16);
+        }
+    }
+    let (l1, r1) = ([2u16, 3, 1], [3u16, 1, 2]);
+    let (l2, r2) = ([1u16, 3, 2], [2u16, 1, 3]);
+    let d = match d.map_connection_ids_from_iter(l1.iter().cloned(), r1.iter().cloned()) {
+        Ok(d) => d,
+        Err(_) => unreachable!(),
+    };
+    // The dictionary came back inside a `Result` (connector discriminant no longer a constant
+    // for CBMC): rebuild the same state field by field before the second mapping.
+    let d = rebuild(&d, &S6C);
+    let d = match d.map_connection_ids_from_iter(l2.iter().cloned(), r2.iter().cloned()) {
+        Ok(d) => d,
+        Err(_) => unreachable!(),
+    };
+    // new id of an old id under each mapping, then composed
+    let (mut a_l, mut a_r, mut b_l, mut b_r) = ([0u16; 4], [0u16; 4], [0u16; 4], [0u16; 4]);
+    for i in 0..3 {
+        a_l[l1[i] as usize] = (i + 1) as u16;
+        a_r[r1[i] as usize] = (i + 1) as u16;
+        b_l[l2[i] as usize] = (i + 1) as u16;
+        b_r[r2[i] as usize] = (i + 1) as u16;
+    }
+    let mut cl = [0u16; 4];
+    let mut cr = [0u16; 4];
+    for id in 0..4 {
+        cl[id] = b_l[a_l[id] as usize];
+        cr[id] = b_r[a_r[id] as usize];
+    }
+    let mut after = [WordParam::default(); 8];
+    let na = snapshot_params(&d, &mut after);
+    assert!(na == nb);
+    for k in 0..8 {
+        if k < nb {
+            for old in 0..4 {
+                if before[k].left_id as usize == old {
+                    assert!(after[k].left_id == cl[old], "an entry does not carry the composed left id");
+                }
+                if before[k].right_id as usize == old {
+                    assert!(after[k].right_id == cr[old], "an entry does not carry the composed right id");
+                }
+            }
+        }
+    }
+    let mc = matrix_of(d.verif_connector());
+    for r in 0..4 {
+        for l in 0..4 {
+            assert!(mc.cost(cr[r], cl[l]) == cost_before[r][l], "connection cost changed under two mappings");
+        }
+    }
+    // the retained mapper must translate *original* ids to *current* ids
+    let m = match d.verif_mapper() {
+        Some(m) => m,
+        None => unreachable!(),
+    };
+    for id in 0..4 {
+        assert!(m.left(id as u16) == cl[id], "the retained mapper is not the composition of the two mappings (left ids)");
+        assert!(m.right(id as u16) == cr[id], "the retained mapper is not the composition of the two mappings (right ids)");
+    }
+    kani::cover!(before[0].left_id == 2);
+    core::mem::forget(d);
 }
